@@ -26,7 +26,10 @@ ASSUMPTIONS = ['states are abstracted to structure (types, chain names, configur
 
 BIN = ['+', '-', '*', '/']
 SCAL = [('int', 2), ('float', 0.5), ('complex', 1 + 2j), ('npfloat', np.float64(0.75)), ('npint', np.int64(3)),
-        ('npcomplex', np.complex128(0.5 - 1j)), ('complex-real', complex(2.0, 0.0)), ('npcomplex-real', np.complex128(3.0))]
+        ('npcomplex', np.complex128(0.5 - 1j)), ('complex-real', complex(2.0, 0.0)), ('npcomplex-real', np.complex128(3.0)),
+        ('npcomplex64', np.complex64(0.5 + 1j)), ('npfloat32', np.float32(1.5))]
+ARR2 = {'complex': np.array([1 + 1j, 2.0]), 'complex0d': np.array(1j), 'float0d': np.array(2.0), 'complex64': np.array([0.5 + 1j, 1j], dtype=np.complex64),
+        'float2d': np.array([[0.5, 2.0], [1.0, 3.0]])}
 UNARY = list(ref.UNARY)
 import operator
 OPS = {'+': operator.add, '-': operator.sub, '*': operator.mul, '/': operator.truediv, '**': operator.pow}
@@ -43,6 +46,11 @@ def all_events():
             ev.append(('scal', op, s, 'r'))   # s op a
         ev.append(('arr', op, 'l'))
         ev.append(('arr', op, 'r'))
+    for op in list(BIN) + ['**']:
+        for k in ARR2:
+            ev.append(('arr2', op, 'l', k))
+            ev.append(('arr2', op, 'r', k))
+    ev += [('arr2', '**', 'l', 'float'), ('arr2', '**', 'r', 'float')]
     ev += [('pow', 'ab'), ('pow', 'int'), ('pow', 'float'), ('pow', 'rint'), ('pow', 'complex'), ('pow', 'rcomplex')]
     for f in UNARY:
         ev.append(('un', f))
@@ -226,6 +234,24 @@ def apply_event(pe, regs, ev, acc, path):
                     return None
                 check_produced(pe, acc, 'arith-ndarray', r, sub) and acc.ok(('t', tuple(map(tuple, path)), ev), True, 'arith-ndarray')
                 return None     # arrays are checked but not stored
+            if kind == 'arr2':
+                arr = np.array([0.5, 2.5]) if ev[3] == 'float' else ARR2[ev[3]]
+                if ev[1] == '/' and ev[2] == 'r' and abs(va) < 1e-3:
+                    return disabled('divisor')
+                if ev[1] == '**' and not (va.real > 0.05 and va.real < 4 and is_obs(a, pe)):
+                    return disabled()
+                try:
+                    with warnings.catch_warnings():
+                        warnings.simplefilter('ignore')
+                        r = OPS[ev[1]](a, arr) if ev[2] == 'l' else OPS[ev[1]](arr, a)
+                except (TypeError, ValueError):
+                    acc.ok(('t', tuple(map(tuple, path)), ev), False, 'refused')
+                    return None
+                cpx = 'complex' if 'complex' in ev[3] else 'real'
+                if not check_produced(pe, acc, 'arith-ndarray:%s:%s' % (ev[1], cpx), r, sub):
+                    return None
+                acc.ok(('t', tuple(map(tuple, path)), ev), True, 'arith-ndarray')
+                return None
             if kind == 'pow':
                 if not is_obs(a, pe):
                     return disabled('type')
@@ -426,13 +452,17 @@ def reject_cases():
     cases = []
     for nrep in (1, 2, 3):
         for kind in ('dup-name', 'nonstring-name', 'unsorted-idl', 'dup-idl', 'length-mismatch', 'short', 'multi-ens',
+                     'multi-ens-prefix', 'multi-ens-bare-prefix',
                      'names-samples-mismatch', 'idl-count-mismatch', 'decreasing-range', 'bad-idl-type'):
             for pos in ('first', 'middle', 'last'):
-                for carrier in ('list', 'ndarray', 'range'):
+                for carrier in ('list', 'ndarray', 'range', 'uint32', 'uint8-list'):
                     cases.append({'kind': 'reject', 'what': kind, 'nrep': nrep, 'pos': pos, 'carrier': carrier})
-    for kind in ('cov-bar-name', 'cov-asymmetric', 'cov-indefinite', 'cov-nonsquare', 'cov-wrong-means'):
+    for kind in ('cov-bar-name', 'cov-asymmetric', 'cov-indefinite', 'cov-nonsquare', 'cov-wrong-means', 'cov-negative-variance'):
         for dim in (1, 2, 3):
             cases.append({'kind': 'reject', 'what': kind, 'dim': dim})
+    for kind in ('jack-idl-too-long', 'jack-idl-too-short', 'jack-nonstring-name', 'jack-short', 'jack-unsorted-idl', 'boot-nonstring-name'):
+        for n in (5, 6, 9):
+            cases.append({'kind': 'reject', 'what': kind, 'n': n})
     return cases
 
 
@@ -463,11 +493,39 @@ def run_case(case):
             S = S[:, :-1]
         elif what == 'cov-wrong-means':
             means = means + [5.0]
+        elif what == 'cov-negative-variance':
+            # variances given as a number (dim 1) or as a 1d list (diagonal matrix): one of them negative
+            S = -0.25 if dim == 1 else [0.1 * (i + 1) * (-1 if i == dim - 2 else 1) for i in range(dim)]
         try:
             r = pe.cov_Obs(means if len(means) > 1 else means[0], S, name)
             acc.fail('reject:%s' % what, case, 'cov_Obs accepted %s (dim %d): %r' % (what, dim, r))
         except Exception:
             acc.ok((what, dim), True, 'rejected')
+        return acc
+    if what.startswith('jack-') or what.startswith('boot-'):
+        n = case['n']
+        r = alpha.rng('rejjack', n)
+        src = pe.Obs([r.normal(size=n)], ['A|r1'], idl=[range(2, 2 * n + 2, 2)])
+        jk = src.export_jackknife()
+        try:
+            if what == 'jack-idl-too-long':
+                o = pe.import_jackknife(jk, 'A|r1', idl=[range(1, 2 * n + 1)])
+            elif what == 'jack-idl-too-short':
+                o = pe.import_jackknife(jk, 'A|r1', idl=[list(range(1, n))])
+            elif what == 'jack-nonstring-name':
+                o = pe.import_jackknife(jk, 5)
+            elif what == 'jack-short':
+                o = pe.import_jackknife(jk[:5], 'A|r1')
+            elif what == 'jack-unsorted-idl':
+                o = pe.import_jackknife(jk, 'A|r1', idl=[[2, 1] + list(range(3, n + 1))])
+            elif what == 'boot-nonstring-name':
+                rn = np.array([r.integers(0, n, size=n) for _ in range(3 * n)])
+                o = pe.import_bootstrap(src.export_bootstrap(3 * n, random_numbers=rn), 7, rn)
+            acc.fail('reject:%s' % what, case, '%s accepted a malformed request: names=%s idl=%s N=%s stored=%s' % (
+                what.split('-')[0], o.names, o.idl, o.N, {k: len(v) for k, v in o.deltas.items()}))
+        except Exception:
+            acc.ok((what, n), True, 'rejected')
+        acc.sample(case)
         return acc
     nrep, pos, carrier = case['nrep'], case['pos'], case['carrier']
     names = ['A|r%d' % (i + 1) for i in range(nrep)]
@@ -507,6 +565,19 @@ def run_case(case):
             applicable = False
         else:
             names[which] = 'B|r1'
+    elif what in ('multi-ens-prefix', 'multi-ens-bare-prefix'):
+        # a second ensemble whose name has the first one's as a string prefix (or the other way round)
+        if nrep == 1:
+            applicable = False
+        elif what == 'multi-ens-prefix':
+            if pos == 'first':
+                names = ['A|r1'] + ['AB|r%d' % (i + 1) for i in range(1, nrep)]
+            elif pos == 'middle':
+                names = ['AB|r1'] + ['A|r%d' % (i + 1) for i in range(1, nrep)]
+            else:
+                names[-1] = 'AB|r1'
+        else:
+            names = ['A'] + ['A%d' % (i + 1) for i in range(1, nrep)] if which == 0 else ['A%d' % (i + 1) for i in range(nrep - 1)] + ['A']
     elif what == 'names-samples-mismatch':
         names = names + ['A|r9']
     elif what == 'idl-count-mismatch':
@@ -526,10 +597,14 @@ def run_case(case):
             return tuple(range(1, len(samples[i]) + 1))
         if carrier == 'ndarray':
             return np.array(c)
+        if carrier == 'uint32':
+            return np.array(c, dtype=np.uint32)
+        if carrier == 'uint8-list':
+            return [np.uint8(v) for v in c]
         if carrier == 'range' and len(set(np.diff(c))) == 1 and np.diff(c)[0] > 0:
             return range(c[0], c[-1] + 1, c[1] - c[0])
         return list(c)
-    for with_idl in ((True, False) if what in ('dup-name', 'nonstring-name', 'short', 'multi-ens', 'names-samples-mismatch') else (True,)):
+    for with_idl in ((True, False) if what in ('dup-name', 'nonstring-name', 'short', 'multi-ens', 'multi-ens-prefix', 'multi-ens-bare-prefix', 'names-samples-mismatch') else (True,)):
         idl = [carry(c, i) for i, c in enumerate(cfgs)] if with_idl else None
         try:
             o = pe.Obs(samples, names, idl=idl)
@@ -594,7 +669,7 @@ def main(tier, seed, jobs):
     rule = ('BFS to depth %d from %d initial register pairs over %d events per state (binary operators in both orders, scalar / '
             'ndarray partners of 8+1 kinds in both positions, **, 17 functions, reweight, correlate, merge_obs, gamma_method, '
             'least_squares, find_root, json/dobs/pickle/jackknife round trips, CObs construction and parts), states merged on '
-            'structure; plus the rejection product (11 malformed kinds x 1..3 chains x 3 positions x 3 carriers, 5 covariance '
-            'kinds x 3 dimensions).  Non-trivial = every executed (not disabled) transition and every rejection request' % (
+            'structure; plus the rejection product (13 malformed kinds x 1..3 chains x 3 positions x 5 carriers incl. unsigned integers, 6 covariance '
+            'kinds x 3 dimensions, 6 malformed import_jackknife / import_bootstrap requests x 3 lengths).  Non-trivial = every executed (not disabled) transition and every rejection request' % (
                 depth, len(init), len(all_events())))
     return engine.report('C04', tier, seed, LEVEL, tot, time.time() - t0, rule, ASSUMPTIONS, extra_cov=extra, exhaustive=True)
